@@ -15,6 +15,7 @@ mod c20;
 mod ev;
 mod gen_expr;
 mod nz;
+mod py;
 mod tz;
 mod tztable;
 mod util;
@@ -38,6 +39,8 @@ fn exec_line(line: &str) -> String {
         c15::exec(op, args)
     } else if op.starts_with("chr.") {
         cal::exec(op, args)
+    } else if op.starts_with("py.") {
+        py::exec(op, args)
     } else if op.starts_with("pur.") {
         c18::exec(op, args)
     } else if op.starts_with("sun.") {
@@ -90,6 +93,7 @@ fn main() {
                 "nz" => nz::gen(tier, &mut rng, &mut emit),
                 "c10" => c10::gen(tier, &mut rng, &mut emit),
                 "c18" => c18::gen(tier, &mut rng, &mut emit),
+                "py" => py::gen(tier, &mut rng, &mut emit),
                 "c11" => c11::gen(tier, &mut rng, &mut emit),
                 _ => {
                     eprintln!("unknown suite {suite}");
